@@ -26,6 +26,19 @@ def runOpProc (op : String) (args : List String) : String :=
     | some os => ";".intercalate ((optionsDict os).map fun (k, v) => encS k ++ "=" ++ (match v with
         | .flag => "T" | .int n => "I" ++ toString n | .str s => "S" ++ encS s))
     | none => bad
+  | "P.C03.options", [opts, out] =>
+    -- every key of the dictionary carries what its LAST occurrence in the list says: a flag (True), an integer for an
+    -- all-digit value, the value itself otherwise (theorems optionsDict_lookup, parseOption_flag / _int / _str)
+    match (if opts == "" then some [] else (opts.splitOn ",").mapM decS) with
+    | some os =>
+      let want := os.reverse.foldl (fun (acc : List (Str × OptVal)) o =>
+        let (k, v) := parseOption o
+        if acc.any (·.1 == k) then acc else acc ++ [(k, v)]) []
+      let enc := fun (kv : Str × OptVal) => encS kv.1 ++ "=" ++ (match kv.2 with
+        | .flag => "T" | .int n => "I" ++ toString n | .str s => "S" ++ encS s)
+      let got := if out == "" then [] else out.splitOn ";"
+      if got.length == want.length && want.all (fun kv => got.contains (enc kv)) then "ok" else "FAIL option-dictionary"
+    | none => bad
   | "P.C18.eq", [a, b] => if a == b then "ok" else "FAIL results-differ"
   | _, _ => unknownOp
 
